@@ -193,24 +193,11 @@ def run(chk):
     ups = [a for a in aws if a.call is not None and names.call_is(a.call, "CredentialStore::update_credential")]
     oks = [s["bb"] for s in flow.outcome_sites(ga) if s["kind"] == "Ok" and s["path"] == ()]
     if chk.require("R5 counter accepted before response", "R5|update", len(ups) == 1 and oks, where(ga), "update_credential await / Ok return not found"):
-        tr = try_of_await(ga, ups[0], du)
-        # the switch on the counter's presence guarding the update
-        guard = None
-        for sb in range(len(ga.blocks)):
-            t = ga.term(sb)
-            if t and t["k"] == "switch":
-                pl = flow.op_place(t["op"])
-                d = du.single_def(pl[0]) if pl and pl[1] == () else None
-                if d and d[0] == "assign" and d[4]["k"] == "discr":
-                    l, pth = flow.norm_place(d[4]["place"])
-                    if pth and pth[-1] == "counter":
-                        guard = sb
-        if chk.require("R5 counter accepted before response", "R5|guard", guard is not None and tr is not None, where(ga), "counter guard or `?` on update not found"):
-            e = flow.switch_edges(ga, guard)
-            none_t = e.get("otherwise")
-            cut = flow.cut_by_edges(ga, 0, oks, [(guard, none_t), (tr["switch_bb"], tr["continue_bb"])])
-            chk.ob("R5 counter accepted before response", "R5|get_assertion|ok-needs-accepted-counter", cut, where(ga, ups[0].call_bb),
-                   "Ok is %sreachable without (counter absent) or (update_credential succeeded)" % ("un" if cut else ""))
+        from .common import accepted_counter_cut
+        cut, upd_ok, no_counter = accepted_counter_cut(p, ga)
+        chk.require("R5 counter accepted before response", "R5|guard", bool(upd_ok) and bool(no_counter), where(ga), "test of the stored counter's presence or of update_credential's result not found")
+        chk.ob("R5 counter accepted before response", "R5|get_assertion|ok-needs-accepted-counter", cut, where(ga, ups[0].call_bb),
+               "Ok is %sreachable without (counter absent) or (update_credential succeeded)" % ("un" if cut else ""))
     # R7: what an assertion may write: the looked-up record with only its counter advanced
     T = flow.Terms(p, ga)
     for a in ups:
